@@ -20,10 +20,10 @@ BOUNDS = {
     "quick": {"families": "F1 node lemmas over possibly-undefined children P (all routes), F1 over V, DAG sharing, masked offenders, stratified F2 and "
               "every 5th F4 pattern (5 representative routes), symbolic constants; structural claims on F1/F2/F4 subsets",
               "outside": "deeper trees, n>7, arity>4, rounding size"},
-    "thorough": {"families": "as quick with all of F2 and F4 (7 routes), F3 chains (every 5th), seeded F5", "outside": "deeper trees, n>7, arity>4, rounding size"},
+    "thorough": {"families": "as quick with every 2nd F2 tree and F4 pattern (7 routes), F3 chains (every 5th), seeded F5", "outside": "deeper trees, n>7, arity>4, rounding size"},
 }
 ASSUMPTIONS = ["'the same number up to rounding' is decided as exact equality of the real functions computed by the routes"]
-OPTS = {"quick": {"timeout_ms": 8000, "job_budget_s": 40}, "thorough": {"timeout_ms": 30000, "job_budget_s": 300}}
+OPTS = {"quick": {"timeout_ms": 8000, "job_budget_s": 40}, "thorough": {"timeout_ms": 20000, "job_budget_s": 120}}
 
 ALL = ["fwd", "fwd_obj", "rev", "rev_obj", "diff_at", "diff_comp_at", "diff_comp", "fwd_early", "diff_at_early", "diff_comp_at_early",
        "diff_comp_early", "fwd_after_asexp", "diff_comp_after_asexp"]
@@ -64,7 +64,7 @@ def jobs(tier, seed):
               ["Divide", fam.X, fam.C(1)], ["Power", fam.C(1), ["Logarithm", fam.X]]]:
         add(d, REP7, var="x")
         add(d, STRUCT, var="x")
-    f2 = fam.f2_quick(6, 2) if tier == "quick" else fam.f2("thorough")
+    f2 = fam.f2_quick(6, 2) if tier == "quick" else fam.f2("thorough")[::2]
     for i, d in enumerate(f2):
         add(d, REP if tier == "quick" else REP7, var="x")
         if i % 4 == 0:
@@ -72,7 +72,7 @@ def jobs(tier, seed):
         if i % 7 == 0:
             add(d, REP, var="y")
     pats = f4.f4(tier)
-    for i, d in enumerate(pats if tier == "thorough" else pats[::5]):
+    for i, d in enumerate(pats[::2] if tier == "thorough" else pats[::5]):
         vs = rt.variables_of(d)
         if vs:
             add(d, REP if tier == "quick" else REP7, var=vs[0])
